@@ -164,6 +164,81 @@ Proof.
     rewrite V4, V3, V2, V1. field. repeat split; assumption.
 Qed.
 
+(* ---------------------------------------------------------------- composition A -> B -> C vs A -> C *)
+(* Both routes start with the same rounded step (A to its base, r1).  The direct route then makes one step
+   (from base to C); the route via B makes three (from base to B, B to base, base to C).  Over the reals the two
+   middle steps cancel, so  via = direct * (1+d1)(1+d2)(1+d3)(1+d4), |di| <= u/(1-u): the two results differ by
+   at most ((1+u/(1-u))^4 - 1) |direct|, whatever the (linear / reciprocal) kinds of A, B, C. *)
+Theorem composition_float_lin_recip : forall ua ub uc ka kb kc la lb lc v,
+  kind_coef ua = Some (ka, la) -> kind_coef ub = Some (kb, lb) -> kind_coef uc = Some (kc, lc) ->
+  let ca := num_of_bits (l_bits la) in
+  let cb := num_of_bits (l_bits lb) in
+  let cc := num_of_bits (l_bits lc) in
+  fin v -> fin ca -> fin cb -> fin cc ->
+  let r1 := convert_to_base fl ua v in
+  let direct := through_base fl v ua uc in
+  let r2 := through_base fl v ua ub in
+  let r3 := convert_to_base fl ub r2 in
+  let via := through_base fl r2 ub uc in
+  in_range (step_R ka true (Rv ca) (Rv v)) ->
+  in_range (step_R kc false (Rv cc) (Rv r1)) ->
+  in_range (step_R kb false (Rv cb) (Rv r1)) ->
+  in_range (step_R kb true (Rv cb) (Rv r2)) ->
+  in_range (step_R kc false (Rv cc) (Rv r3)) ->
+  exists d1 d2 d3 d4,
+    Rabs d1 <= u53' /\ Rabs d2 <= u53' /\ Rabs d3 <= u53' /\ Rabs d4 <= u53' /\
+    Rv via = Rv direct * ((1 + d1) * (1 + d2) * (1 + d3) * (1 + d4)) /\
+    Rabs (Rv via - Rv direct) <= ((1 + u53') * (1 + u53') * (1 + u53') * (1 + u53') - 1) * Rabs (Rv direct).
+Proof.
+  intros ua ub uc ka kb kc la lb lc v Ka Kb Kc ca cb cc Fv Fa Fb Fc r1 direct r2 r3 via.
+  change r1 with (step_fl true ua v). change direct with (step_fl false uc (step_fl true ua v)).
+  change r2 with (step_fl false ub (step_fl true ua v)).
+  change r3 with (step_fl true ub (step_fl false ub (step_fl true ua v))).
+  change via with (step_fl false uc (step_fl true ub (step_fl false ub (step_fl true ua v)))).
+  clear r1 direct r2 r3 via. intros R1 Rd R2 R3 R4.
+  destruct (step_rel ua ka la v true Ka Fv Fa R1) as (e1 & He1 & F1 & V1).
+  set (x1 := step_fl true ua v) in *.
+  destruct (step_rel uc kc lc x1 false Kc F1 Fc Rd) as (ed & Hed & Fd & Vd).
+  set (xd := step_fl false uc x1) in *.
+  destruct (step_rel ub kb lb x1 false Kb F1 Fb R2) as (e2 & He2 & F2 & V2).
+  set (x2 := step_fl false ub x1) in *.
+  destruct (step_rel ub kb lb x2 true Kb F2 Fb R3) as (e3 & He3 & F3 & V3).
+  set (x3 := step_fl true ub x2) in *.
+  destruct (step_rel uc kc lc x3 false Kc F3 Fc R4) as (e4 & He4 & F4 & V4).
+  set (x4 := step_fl false uc x3) in *.
+  fold cb in V2, V3. fold cc in Vd, V4.
+  pose proof (fin_Rv_neq_0 _ Fb) as Nb. pose proof (fin_Rv_neq_0 _ Fc) as Nc.
+  pose proof (fin_Rv_neq_0 _ F1) as N1. pose proof (fin_Rv_neq_0 _ F2) as N2.
+  pose proof (fin_Rv_neq_0 _ F3) as N3.
+  destruct (err_inv ed Hed) as [Pd Id]. destruct (err_inv e2 He2) as [P2 I2].
+  destruct (err_inv e3 He3) as [P3 I3].
+  pose proof (err_id e2 He2) as J2. pose proof (err_id e3 He3) as J3. pose proof (err_id e4 He4) as J4.
+  assert (D : forall a b c d, Rabs (a - 1) <= u53' -> Rabs (b - 1) <= u53' -> Rabs (c - 1) <= u53' ->
+                Rabs (d - 1) <= u53' -> Rv x4 = Rv xd * (a * b * c * d) ->
+    exists d1 d2 d3 d4,
+      Rabs d1 <= u53' /\ Rabs d2 <= u53' /\ Rabs d3 <= u53' /\ Rabs d4 <= u53' /\
+      Rv x4 = Rv xd * ((1 + d1) * (1 + d2) * (1 + d3) * (1 + d4)) /\
+      Rabs (Rv x4 - Rv xd) <= ((1 + u53') * (1 + u53') * (1 + u53') * (1 + u53') - 1) * Rabs (Rv xd)).
+  { intros a b c d Ha Hb Hc Hd EQ. exists (a - 1), (b - 1), (c - 1), (d - 1).
+    repeat (split; [assumption|]). split.
+    - rewrite EQ. ring.
+    - rewrite EQ. replace (Rv xd * (a * b * c * d) - Rv xd) with ((a * b * c * d - 1) * Rv xd) by ring.
+      rewrite Rabs_mult. apply Rmult_le_compat_r; [apply Rabs_pos|]. now apply four_factors. }
+  destruct kb, kc; cbn [step_R] in Vd, V2, V3, V4.
+  - (* B reciprocal, C reciprocal *)
+    apply (D (1 + e2) (/ (1 + e3)) (1 + e4) (/ (1 + ed))); auto.
+    rewrite V4, V3, V2, Vd. field. repeat split; assumption.
+  - (* B reciprocal, C linear *)
+    apply (D (/ (1 + e2)) (1 + e3) (1 + e4) (/ (1 + ed))); auto.
+    rewrite V4, V3, V2, Vd. field. repeat split; assumption.
+  - (* B linear, C reciprocal *)
+    apply (D (/ (1 + e2)) (/ (1 + e3)) (1 + e4) (/ (1 + ed))); auto.
+    rewrite V4, V3, V2, Vd. field. repeat split; assumption.
+  - (* B linear, C linear *)
+    apply (D (1 + e2) (1 + e3) (1 + e4) (/ (1 + ed))); auto.
+    rewrite V4, V3, V2, Vd. field. repeat split; assumption.
+Qed.
+
 (* the table: which units are reciprocal (so that the theorem's scope is visible) *)
 Definition reciprocal_units : list string :=
   map (fun u => hd ""%string (u_ids u))
